@@ -180,8 +180,8 @@ def harmonic_set(a: PointTensor, b: PointTensor, c: PointTensor) -> PointTensor:
 
         l = join(a, b)
 
-    m = join(o, c)
-    p = o + 1 / 2 * m.direction
+    # any third point of the line through o and c will do; o + 1/2 * direction could coincide with c itself
+    p = PointCollection.from_array(o.normalized_array + c.normalized_array)
     result = l.meet(join(meet(o.join(a), p.join(b)), meet(o.join(b), p.join(a))))
 
     if n > 3:
